@@ -13,6 +13,24 @@ git clone -q "$TREE" "$S/coca" || exit 2
 (cd "$TREE" && git diff HEAD --binary) > "$S/wt.diff"
 if [ -s "$S/wt.diff" ]; then (cd "$S/coca" && git apply --whitespace=nowarn "$S/wt.diff") || exit 2; fi
 (cd "$S/coca" && go test -json -vet=off -count=1 -timeout 25m "$@" ./... > "$S/out.json" 2> "$S/err.txt")
+# a stable test that fails is retried (its package only, twice): the suite has rare races between
+# t.Parallel tests that share a parser; a test counts as passing if it passes in any attempt
+for attempt in 1 2; do
+  PK=$(python3 - "$S/out.json" <<'PY2'
+import json,sys
+base=set(json.load(open('/root/.vp/BASELINE.json'))['stable_pass'])
+res={}
+for f in sys.argv[1:]:
+    for l in open(f):
+        try: e=json.loads(l)
+        except Exception: continue
+        if e.get('Test') and e.get('Action')=='pass': res[e['Package']+'::'+e['Test']]=1
+print(' '.join(sorted({k.split('::')[0] for k in base-set(res)})))
+PY2
+)
+  [ -z "$PK" ] && break
+  (cd "$S/coca" && git checkout -q -- _fixtures 2>/dev/null; go test -json -vet=off -count=1 -p 1 $PK >> "$S/out.json" 2>> "$S/err.txt")
+done
 python3 - "$S/out.json" <<'PY'
 import json,sys
 base=json.load(open('/root/.vp/BASELINE.json'))
@@ -22,7 +40,8 @@ for l in open(sys.argv[1]):
     try: e=json.loads(l)
     except Exception: continue
     if e.get('Test') and e.get('Action') in ('pass','fail','skip'):
-        res[e['Package']+'::'+e['Test']]=e['Action']
+        k=e['Package']+'::'+e['Test']
+        if res.get(k)!='pass': res[k]=e['Action']
 passed={k for k,v in res.items() if v=='pass'}
 failed={k for k,v in res.items() if v=='fail'}
 missing=sorted(stable-passed)
